@@ -209,6 +209,18 @@ Fixpoint expected (pm : chan -> chan -> bool) (t : target) (su : tsubs) (evs : l
   | PDrain _ :: r => expected pm t su r
   end.
 
+(* the history as target t can know it: the (un)subscriptions of OTHER connections erased.
+   liveSubscription calls ps.unregister(kind, channel, target) for every name in an UNSUBSCRIBE /
+   PUNSUBSCRIBE whether or not that connection subscribed to it; PUnreg of a pair that is not
+   registered must therefore be harmless for everybody else. *)
+Definition concerns (t : target) (ev : pev) : bool :=
+  match ev with
+  | PReg _ _ t' => Nat.eqb t' t
+  | PUnreg _ _ t' => Nat.eqb t' t
+  | _ => true
+  end.
+Definition own_history (t : target) (evs : list pev) : list pev := filter (concerns t) evs.
+
 (* a history in which every publish completes before the next one starts (fence events are
    published under the write lock; the PUBLISH command is not serialised and is outside) *)
 Fixpoint serialised (pm : chan -> chan -> bool) (s : ps) (evs : list pev) : bool :=
